@@ -99,17 +99,35 @@ type field struct {
 	off  int
 	kind byte // 'f' flag, 't' type code, 'c' count
 	le   bool
+	anc  []int // indices (into wenc.fields) of the count fields of the enclosing containers, outermost first
+}
+
+// cut is a truncation point together with the count fields whose loops are still running there:
+// the enclosing containers, and the container itself once its own count field has been read.
+type cut struct {
+	off int
+	anc []int
 }
 
 type wenc struct {
 	b      []byte
 	fields []field
+	cuts   []cut
+	stack  []int // count fields of the containers that are open at the current position
 	r      *vproto.Rng
 	mixed  bool // choose a byte order per element
 }
 
+func (e *wenc) cut(off int) {
+	e.cuts = append(e.cuts, cut{off, append([]int(nil), e.stack...)})
+}
+
 func (e *wenc) u32(v uint32, le bool, kind byte) {
-	e.fields = append(e.fields, field{len(e.b), kind, le})
+	// truncation points of this field: before it, after its first byte, before its last byte
+	e.cut(len(e.b))
+	e.cut(len(e.b) + 1)
+	e.cut(len(e.b) + 3)
+	e.fields = append(e.fields, field{len(e.b), kind, le, append([]int(nil), e.stack...)})
 	var t [4]byte
 	if le {
 		binary.LittleEndian.PutUint32(t[:], v)
@@ -117,6 +135,14 @@ func (e *wenc) u32(v uint32, le bool, kind byte) {
 		binary.BigEndian.PutUint32(t[:], v)
 	}
 	e.b = append(e.b, t[:]...)
+}
+
+// open: the count field just written starts a loop; close: the container ends here (a truncation
+// exactly at the end of the last member, with the loop still believed to be running)
+func (e *wenc) open() { e.stack = append(e.stack, len(e.fields)-1) }
+func (e *wenc) close() {
+	e.cut(len(e.b))
+	e.stack = e.stack[:len(e.stack)-1]
 }
 
 func (e *wenc) f64(v float64, le bool) {
@@ -133,7 +159,8 @@ func (e *wenc) header(code uint32, le bool) bool {
 	if e.mixed {
 		le = e.r.Bool()
 	}
-	e.fields = append(e.fields, field{len(e.b), 'f', le})
+	e.cut(len(e.b))
+	e.fields = append(e.fields, field{len(e.b), 'f', le, append([]int(nil), e.stack...)})
 	if le {
 		e.b = append(e.b, 1)
 	} else {
@@ -143,53 +170,51 @@ func (e *wenc) header(code uint32, le bool) bool {
 	return le
 }
 
+func (e *wenc) point(p geom.Point, le bool) {
+	e.cut(len(e.b))
+	e.cut(len(e.b) + 1)
+	e.f64(p.X, le)
+	e.cut(len(e.b))
+	e.cut(len(e.b) + 7)
+	e.f64(p.Y, le)
+}
+
 func (e *wenc) points(ps []geom.Point, le bool) {
 	e.u32(uint32(len(ps)), le, 'c')
+	e.open()
 	for _, p := range ps {
-		e.f64(p.X, le)
-		e.f64(p.Y, le)
+		e.point(p, le)
 	}
+	e.close()
 }
 
 func (e *wenc) geom(g geom.Geom, le bool) {
+	members := func(code uint32, n int, each func(i int, le bool)) {
+		le = e.header(code, le)
+		e.u32(uint32(n), le, 'c')
+		e.open()
+		for i := 0; i < n; i++ {
+			each(i, le)
+		}
+		e.close()
+	}
 	switch t := g.(type) {
 	case geom.Point:
 		le = e.header(1, le)
-		e.f64(t.X, le)
-		e.f64(t.Y, le)
+		e.point(t, le)
 	case geom.LineString:
 		le = e.header(2, le)
 		e.points(t, le)
 	case geom.Polygon:
-		le = e.header(3, le)
-		e.u32(uint32(len(t)), le, 'c')
-		for _, ring := range t {
-			e.points(ring, le)
-		}
+		members(3, len(t), func(i int, le bool) { e.points(t[i], le) })
 	case geom.MultiPoint:
-		le = e.header(4, le)
-		e.u32(uint32(len(t)), le, 'c')
-		for _, p := range t {
-			e.geom(p, le)
-		}
+		members(4, len(t), func(i int, le bool) { e.geom(t[i], le) })
 	case geom.MultiLineString:
-		le = e.header(5, le)
-		e.u32(uint32(len(t)), le, 'c')
-		for _, p := range t {
-			e.geom(p, le)
-		}
+		members(5, len(t), func(i int, le bool) { e.geom(geom.LineString(t[i]), le) })
 	case geom.MultiPolygon:
-		le = e.header(6, le)
-		e.u32(uint32(len(t)), le, 'c')
-		for _, p := range t {
-			e.geom(p, le)
-		}
+		members(6, len(t), func(i int, le bool) { e.geom(geom.Polygon(t[i]), le) })
 	case geom.GeometryCollection:
-		le = e.header(7, le)
-		e.u32(uint32(len(t)), le, 'c')
-		for _, p := range t {
-			e.geom(p, le)
-		}
+		members(7, len(t), func(i int, le bool) { e.geom(t[i], le) })
 	default:
 		panic("wenc: unsupported")
 	}
@@ -324,6 +349,70 @@ var inflated = func(n int) []uint32 {
 	return []uint32{uint32(n + 1), 1 << 16, 1 << 28, 1 << 31, 0xffffffff}
 }
 
+// cutMutations: for every truncation point of the encoding (every byte-level position inside and
+// around every flag / type / count field, every point boundary, the end of every container) and every
+// count field whose loop is still running at that point (the enclosing containers and the container
+// itself), the input truncated THERE with THAT count inflated. A reader that stops trusting the end
+// of input anywhere (an EOF treated as "empty", a `break` instead of an error) lets the inflated count
+// drive its loop and its allocation.
+func (w *wkbEmitter) cutMutations(e *wenc, counts []uint32) {
+	b := e.b
+	seen := map[string]bool{}
+	for _, c := range e.cuts {
+		if c.off > len(b) {
+			continue
+		}
+		var usable []int
+		for _, a := range c.anc {
+			if e.fields[a].off+4 <= c.off {
+				usable = append(usable, a)
+			}
+		}
+		key := fmt.Sprint(c.off, usable)
+		if len(usable) == 0 || seen[key] {
+			continue
+		}
+		seen[key] = true
+		for _, a := range usable {
+			f := e.fields[a]
+			old := binary.LittleEndian.Uint32(b[f.off:])
+			if !f.le {
+				old = binary.BigEndian.Uint32(b[f.off:])
+			}
+			w.wkb(put32(b, f.off, old+1, f.le)[:c.off])
+			for _, v := range counts {
+				w.wkb(put32(b, f.off, v, f.le)[:c.off])
+			}
+		}
+		if len(usable) > 1 {
+			m := b
+			for _, a := range usable {
+				m = put32(m, e.fields[a].off, counts[len(counts)-1], e.fields[a].le)
+			}
+			w.wkb(m[:c.off])
+		}
+	}
+}
+
+// zoo: one geometry of every type with members of every shape (empty, one, several), alone and as
+// a member of every container that can hold it, to depth 3
+func zoo() []geom.Geom {
+	p := func(i int) geom.Point { return geom.Point{X: float64(i), Y: float64(-i) / 2} }
+	ls := geom.LineString{p(1), p(2)}
+	pg := geom.Polygon{{p(1), p(2), p(3)}, {}, {p(4)}}
+	mp := geom.MultiPoint{p(5), p(6)}
+	mls := geom.MultiLineString{ls, {}, {p(7)}}
+	mpg := geom.MultiPolygon{pg, {}, {{p(8)}, {}}}
+	gc := geom.GeometryCollection{p(9), ls, pg, mp, mls, mpg, geom.GeometryCollection{pg}, geom.GeometryCollection{}}
+	return []geom.Geom{
+		p(0), ls, geom.LineString{}, pg, geom.Polygon{}, geom.Polygon{{}}, geom.Polygon{{}, {}}, mp, geom.MultiPoint{}, mls, geom.MultiLineString{{}},
+		mpg, geom.MultiPolygon{{}}, geom.MultiPolygon{{{}}}, geom.MultiPolygon{pg, pg}, gc, geom.GeometryCollection{},
+		geom.GeometryCollection{pg}, geom.GeometryCollection{geom.Polygon{{}}}, geom.GeometryCollection{mpg, pg},
+		geom.GeometryCollection{geom.GeometryCollection{mpg, pg}, pg},
+		geom.GeometryCollection{geom.GeometryCollection{geom.GeometryCollection{geom.MultiPolygon{{{}}}}, mls}, mp},
+	}
+}
+
 func genWKB(out *bufio.Writer, r *vproto.Rng, tier string) {
 	w := &wkbEmitter{out: out, r: r}
 	thorough := tier == "thorough"
@@ -374,6 +463,21 @@ func genWKB(out *bufio.Writer, r *vproto.Rng, tier string) {
 		w.all(cat(hdr(5, 1, le), hdr(1, 0, le)[:5], make([]byte, 16)))
 		w.all(cat(hdr(6, 1, le), hdr(2, 0, le)))
 		w.all(cat(hdr(4, 2, le), hdr(1, 0, le)[:5], make([]byte, 16), hdr(7, 0, le)))
+	}
+
+	// 1b. the zoo: every truncation point x every count whose loop is running there, inflated
+	for zi, g := range zoo() {
+		for _, le := range []bool{true, false} {
+			e := encodeMeta(g, le, false, r)
+			w.all(e.b)
+			for k := 0; k < len(e.b); k++ {
+				w.wkb(e.b[:k])
+			}
+			w.cutMutations(e, []uint32{4097, 1 << 16, 1 << 20})
+		}
+		if zi%2 == 0 {
+			w.cutMutations(encodeMeta(g, true, true, r), []uint32{1 << 16, 1 << 20})
+		}
 	}
 
 	// 2. chunk boundaries of readPoints (1024-point chunks): honest, short by one byte, short by a chunk
@@ -488,6 +592,9 @@ func genWKB(out *bufio.Writer, r *vproto.Rng, tier string) {
 					w.wkb(c)
 				}
 			}
+		}
+		if thorough || i%2 == 0 {
+			w.cutMutations(e, []uint32{1 << 16, 1 << 20})
 		}
 		// single and double bit flips
 		for k := 0; k < 24; k++ {
